@@ -83,6 +83,7 @@ Section Adaptive.
   Record attempt := mkAt {
     at_t1_achieved : bool; at_accepted : bool; at_errnorm : T; at_hstep : T;
     at_dt1 : T;               (* (t0 + h) - t1 : distance of the clip decision from its threshold *)
+    at_errraw : T; at_ymax : T;  (* unscaled error estimate and max(|y0|,|ynew|): noise detection in the tie *)
     at_state : astate;        (* (fnew, tnew, ynew, h') *)
     at_calls : list (T * list T) }.
 
@@ -92,7 +93,8 @@ Section Adaptive.
     let hstep := if t1_achieved then osub o t1 t0 else h in
     let '(ynew, fnew, K, calls) := rk_step t0 y0 f0 hstep in
     let scale := oadd o atol (omul o (omax (vnorm o y0) (vnorm o ynew)) rtol) in
-    let errnorm := odiv o (error_norm K hstep (length y0)) scale in
+    let errraw := error_norm K hstep (length y0) in
+    let errnorm := odiv o errraw scale in
     let accepted := oltb o errnorm (o1 o) in
     let h' :=
       if accepted && negb t1_achieved then
@@ -103,7 +105,7 @@ Section Adaptive.
       else if negb accepted then
         omul o hstep (omax min_factor (omul o step_mult (pow_neg_inv errnorm)))
       else h in
-    mkAt t1_achieved accepted errnorm hstep (osub o (oadd o t0 h) t1)
+    mkAt t1_achieved accepted errnorm hstep (osub o (oadd o t0 h) t1) errraw (omax (vnorm o y0) (vnorm o ynew))
          (mkA fnew (oadd o t0 hstep) ynew h') calls.
 
   (* _single_step: repeat until accepted.  Fuel bounds the number of rejections. *)
